@@ -26,7 +26,7 @@ for pid in ['C%02d' % i for i in range(1, 21)]:
             if f not in have:
                 have.append(f)
     lines[i0] = lines[i0].replace(mfl.group(1), ', '.join(sorted(have)))
-    lines[i0] = lines[i0].replace('The change must be reachable through', 'Prefer code which takes part in the behaviour but is used less often than the main path: alternative implementations of a component (other executors, launch methods, schedulers, workers, resource managers, launchers), optional helpers, rarely used API entry points - as long as a shipped configuration or the documented API reaches it. The change must be reachable through')
+    if 'Prefer code which takes part' not in lines[i0]: lines[i0] = lines[i0].replace('The change must be reachable through', 'Prefer code which takes part in the behaviour but is used less often than the main path: alternative implementations of a component (other executors, launch methods, schedulers, workers, resource managers, launchers), optional helpers, rarely used API entry points - as long as a shipped configuration or the documented API reaches it. The change must be reachable through')
     k = next(i for i, l in enumerate(lines) if l.startswith('Also taken'))
     k2 = k + 1
     while k2 < len(lines) and lines[k2].startswith(' - '):
